@@ -285,6 +285,10 @@ class C18(Prop):
             # after truncation to 8 or 16 bits, a 7-bit mask or a case fold)
             for x in recl:
                 for a in alias_chars(x[1]):
+                    for b in sorted({x[0] ^ 1, max(0, x[0] - 1), x[0] + 1, x[0] | 0x80, x[0] + 16}):
+                        if (b, a) not in rec and b < 256:
+                            yield (f"SIG {gnss} {b} {a}", "validity-alias-band", True)
+                            yield (f"SIGCMP {gnss} {x[0]} {x[1]} {b} {a}", "cmp-alias-band", True)
                     if (x[0], a) not in rec:
                         yield (f"SIG {gnss} {x[0]} {a}", "validity-alias", True)
                         yield (f"SIGCMP {gnss} {x[0]} {x[1]} {x[0]} {a}", "cmp-alias", True)
@@ -554,6 +558,20 @@ class FeatDriver:
                     frames.append(open(os.path.join(td, fn), "rb").read().hex())
         frames.append(mk_frame(bytes([0x47, 0xE0, 1, 2, 3])).hex())   # 1150: unsupported everywhere
         frames.append(mk_frame(b"").hex())
+        # hostile frames of every supported number (and a few unsupported ones): the classification by number
+        # must not depend on the payload in a build where the type is not selected
+        from props.l5 import msm_payload_bits, MSM_NUMBERS
+        r = self.ctx.rng("featdrv-corpus")
+        nums = [row["number"] for row in self.sch["dispatch"]] + [0, 1000, 1070, 1078, 1138, 4095]
+        for n in nums:
+            for L, style in ((2, "zeros"), (30, "zeros"), (30, "ones"), (45, "random"), (200, "random")):
+                p = bytearray(L) if style == "zeros" else bytearray([255] * L) if style == "ones" else bytearray(rand_bytes(r, L))
+                p[0] = n >> 4
+                p[1] = ((n & 15) << 4) | (p[1] & 15)
+                frames.append(mk_frame(bytes(p)).hex())
+            if 1071 <= n <= 1137:
+                for sats, sigs in (([], [3]), ([5], []), ([], []), ([0], [1]), ([63], [31])):
+                    frames.append(mk_frame(msm_payload_bits(r, n, sats, sigs)[:60]).hex())
         return frames
 
     def build_run(self, features, slot, corpus):
